@@ -5,4 +5,5 @@ def main (args : List String) : IO UInt32 := do
   | ["k3", carrier] => Qs.K3.main carrier; return 0
   | ["k4", carrier] => Qs.K4.main carrier; return 0
   | ["k1", _] => Qs.K1.main; return 0
+  | ["k2", carrier] => Qs.K2.main carrier; return 0
   | _ => IO.eprintln "usage: qsdriver <harness> <float|rat>"; return 2
